@@ -386,7 +386,7 @@ func main() {
 				fail = ""
 				n, applicable := 0, 0
 				sumh := 0
-				var seq [4]int
+				var seq [8]int
 				var rec func(d int)
 				run := func(d int) {
 					st := start(sp.l, sp.c, sp.nils)
